@@ -347,24 +347,138 @@ theorem run_encode (v : Variant) (as4 : Bool) (u : Upd) (r w : List (Fam × Pfx)
   rw [decode_encode v u extra hwf (hc.imp id (fun h => h.1))]
   exact events_spec v as4 u r w hr hw (hc.imp id (fun h => h.2))
 
+/-! ### The ingress call sites (`explode_update`, RFC 4271 4.3) -/
+
+/-- The announcements / the withdrawals of `specEvents`. -/
+def specAnn (as4 : Bool) (u : Upd) (r : List (Fam × Pfx)) : List Event :=
+  r.map (fun fp => ann as4 u.attrs fp.1 fp.2.canon) ++
+    u.nlri.map (fun p => ann as4 u.attrs .v4u p.canon)
+
+def specWdr (as4 : Bool) (u : Upd) (w : List (Fam × Pfx)) : List Event :=
+  w.map (fun fp => wdr as4 fp.1 fp.2.canon) ++
+    u.withdrawn.map (fun p => wdr as4 .v4u p.canon)
+
+theorem specEvents_eq (as4 : Bool) (u : Upd) (r w : List (Fam × Pfx)) :
+    specEvents as4 u r w = specAnn as4 u r ++ specWdr as4 u w := rfl
+
+/-- The payloads the property demands from an ingress call site (RFC 4271 4.3: an UPDATE that
+    lists a prefix both as withdrawn and as announced is treated "as though the WITHDRAWN
+    ROUTES do not contain the address prefix"): every announcement of `specEvents`, then those
+    withdrawals of `specEvents` whose (family, prefix) is not announced by the same UPDATE. -/
+def specUpdate (as4 : Bool) (u : Upd) (r w : List (Fam × Pfx)) : List Event :=
+  specAnn as4 u r ++
+    (specWdr as4 u w).filter (fun e => !(specAnn as4 u r).any (fun a => sameNlri a e))
+
+/-- No NLRI of the UPDATE is both withdrawn and announced (same family, same prefix up to
+    pad bits). -/
+def noOverlap (as4 : Bool) (u : Upd) (r w : List (Fam × Pfx)) : Prop :=
+  ∀ e ∈ specWdr as4 u w, ∀ a ∈ specAnn as4 u r, sameNlri a e = false
+
+instance (as4 : Bool) (u : Upd) (r w : List (Fam × Pfx)) : Decidable (noOverlap as4 u r w) := by
+  unfold noOverlap; exact inferInstance
+
+theorem specUpdate_of_noOverlap (as4 : Bool) (u : Upd) (r w : List (Fam × Pfx))
+    (h : noOverlap as4 u r w) : specUpdate as4 u r w = specEvents as4 u r w := by
+  rw [specEvents_eq]
+  unfold specUpdate
+  congr 1
+  rw [List.filter_eq_self]
+  intro e he
+  simp only [Bool.not_eq_true', List.any_eq_false]
+  intro a ha
+  simp [h e he a ha]
+
+theorem specAnn_kind (as4 : Bool) (u : Upd) (r : List (Fam × Pfx)) :
+    ∀ e ∈ specAnn as4 u r, e.kind = .announce := by
+  intro e he
+  simp only [specAnn, List.mem_append, List.mem_map] at he
+  rcases he with ⟨_, _, rfl⟩ | ⟨_, _, rfl⟩ <;> rfl
+
+theorem specWdr_kind (as4 : Bool) (u : Upd) (w : List (Fam × Pfx)) :
+    ∀ e ∈ specWdr as4 u w, e.kind = .withdraw := by
+  intro e he
+  simp only [specWdr, List.mem_append, List.mem_map] at he
+  rcases he with ⟨_, _, rfl⟩ | ⟨_, _, rfl⟩ <;> rfl
+
+theorem mem_specUpdate (as4 : Bool) (u : Upd) (r w : List (Fam × Pfx)) (e : Event) :
+    e ∈ specUpdate as4 u r w ↔
+      e ∈ specAnn as4 u r ∨
+        (e ∈ specWdr as4 u w ∧ ∀ a ∈ specAnn as4 u r, ¬ (a.fam = e.fam ∧ a.pfx = e.pfx)) := by
+  simp only [specUpdate, List.mem_append, List.mem_filter, Bool.not_eq_true', List.any_eq_false,
+    sameNlri, decide_eq_true_eq]
+
+/-- What a call site emits, per variant of the overlap site. -/
+def specCaller (v : Variant) (as4 : Bool) (u : Upd) (r w : List (Fam × Pfx)) : List Event :=
+  if v.overlapKept then specEvents as4 u r w else specUpdate as4 u r w
+
+theorem explodeUpdate_spec (v : Variant) (as4 : Bool) (u : Upd) (r w : List (Fam × Pfx))
+    (hr : ReachIs u.attrs r) (hw : UnreachIs u.attrs w)
+    (hc : v.maskPad = true ∨ (allClean r ∧ allClean w)) :
+    explodeUpdate v as4 u.canon = some (specCaller v as4 u r w) := by
+  have ha := announcements_spec v as4 u.canon r hr (hc.imp id (fun h => h.1))
+  have hw' := withdrawals_spec v as4 u.canon w hw (hc.imp id (fun h => h.2))
+  have ea : (r.map (fun fp => ann as4 u.canon.attrs fp.1 fp.2.canon) ++
+      u.canon.nlri.map (ann as4 u.canon.attrs .v4u)) = specAnn as4 u r := by
+    simp [specAnn, Upd.canon, List.map_map, Function.comp_def]
+  have ew : (w.map (fun fp => wdr as4 fp.1 fp.2.canon) ++
+      u.canon.withdrawn.map (wdr as4 .v4u)) = specWdr as4 u w := by
+    simp [specWdr, Upd.canon, List.map_map, Function.comp_def]
+  unfold explodeUpdate
+  rw [ha, hw', ea, ew]
+  unfold specCaller
+  cases v.overlapKept
+  · simp [specUpdate, dropOverlap]
+  · simp [specEvents_eq]
+
+/-- Bytes in, payloads out, through a call site, for every RFC-well-formed UPDATE. -/
+theorem runCaller_encode_gen (v : Variant) (as4 : Bool) (u : Upd) (r w : List (Fam × Pfx))
+    (extra : Bytes) (hwf : u.wfRfc) (hr : ReachIs u.attrs r) (hw : UnreachIs u.attrs w)
+    (hc : v.maskPad = true ∨ (u.clean ∧ allClean r ∧ allClean w)) :
+    runCaller v as4 (encode u ++ extra) = some (specCaller v as4 u r w) := by
+  unfold runCaller
+  rw [decode_encode v u extra hwf (hc.imp id (fun h => h.1))]
+  exact explodeUpdate_spec v as4 u r w hr hw (hc.imp id (fun h => h.2))
+
+theorem specCaller_eq (v : Variant) (as4 : Bool) (u : Upd) (r w : List (Fam × Pfx))
+    (ho : v.overlapKept = false ∨ noOverlap as4 u r w) :
+    specCaller v as4 u r w = specUpdate as4 u r w := by
+  unfold specCaller
+  rcases ho with ho | ho
+  · simp [ho]
+  · rw [specUpdate_of_noOverlap as4 u r w ho]; simp
+
+theorem runCaller_encode (v : Variant) (as4 : Bool) (u : Upd) (r w : List (Fam × Pfx))
+    (extra : Bytes) (hwf : u.wfRfc) (hr : ReachIs u.attrs r) (hw : UnreachIs u.attrs w)
+    (hc : v.maskPad = true ∨ (u.clean ∧ allClean r ∧ allClean w))
+    (ho : v.overlapKept = false ∨ noOverlap as4 u r w) :
+    runCaller v as4 (encode u ++ extra) = some (specUpdate as4 u r w) := by
+  rw [runCaller_encode_gen v as4 u r w extra hwf hr hw hc, specCaller_eq v as4 u r w ho]
+
 /-! ### BMP Route Monitoring, Dumping phase -/
 
 theorem isEorRc_canon (u : Upd) : isEorRc u.canon = isEorRc u := by
   simp [isEorRc, Upd.canon]
 
+theorem specUpdate_nil_of_specEvents_nil (as4 : Bool) (u : Upd) (r w : List (Fam × Pfx))
+    (h : specEvents as4 u r w = []) : specUpdate as4 u r w = [] := by
+  rw [specEvents_eq, List.append_eq_nil_iff] at h
+  simp [specUpdate, h.1, h.2]
+
 theorem runBmpDumping_encode (v : Variant) (as4 : Bool) (u : Upd) (r w : List (Fam × Pfx))
     (extra : Bytes) (hwf : u.wfRfc) (hr : ReachIs u.attrs r) (hw : UnreachIs u.attrs w)
     (hc : v.maskPad = true ∨ (u.clean ∧ allClean r ∧ allClean w))
-    (he : v.eorDrops = false ∨ isEorRc u = false ∨ specEvents as4 u r w = []) :
-    runBmpDumping v as4 (encode u ++ extra) = some (specEvents as4 u r w) := by
+    (he : v.eorDrops = false ∨ isEorRc u = false ∨ specEvents as4 u r w = [])
+    (ho : v.overlapKept = false ∨ noOverlap as4 u r w) :
+    runBmpDumping v as4 (encode u ++ extra) = some (specUpdate as4 u r w) := by
   unfold runBmpDumping
   rw [decode_encode v u extra hwf (hc.imp id (fun h => h.1))]
-  have hev := events_spec v as4 u r w hr hw (hc.imp id (fun h => h.2))
+  have hev := explodeUpdate_spec v as4 u r w hr hw (hc.imp id (fun h => h.2))
+  rw [specCaller_eq v as4 u r w ho] at hev
   simp only [isEorRc_canon]
   rcases he with he | he | he
   · simp [he, hev]
   · simp [he, hev]
-  · rw [hev, he]; simp
+  · rw [hev, specUpdate_nil_of_specEvents_nil as4 u r w he]; simp
 
 /-! ### `encode` produces octets -/
 
